@@ -39,6 +39,8 @@ MANIFEST = dict(
                   kind_free_text="differential: ProjectManager::generate_goto_definitions / generate_completion_proposals on a rendered temp workspace (positional queries) vs the extracted Coq scoping model (abstract queries); answers = ordered (target stem, selection range) lists / sorted label lists"),
              dict(name="E-deftree", path="harness/src/eng_deftree.rs + coq/extract/eng_deftree.ml",
                   kind_free_text="two-phase differential: real lexer+parser+ProjectManager (one-file temp workspace) go-to-definition and completion at the start / middle / end of every identifier token vs the extracted DefTree.definition / DefTree.completion on the dumped tree; parts needing another document are classified Outside by the model and skipped (counted); C10_tree_* / C11_tree_* tie these answers to the abstract model on entity_of_tree"),
+             dict(name="E-wstree", path="harness/src/eng_wstree.rs + coq/extract/eng_wstree.ml",
+                  kind_free_text="two-phase differential on WORKSPACES of files: real lexer+parser on every file (trees dumped), per file a fresh ProjectManager on the temp workspace answering go-to-definition and completion at the start / middle / end of every identifier token vs the extracted WsTree.wdefinition / WsTree.wcompletion on the dumped trees (parent linking through the class index with the cycle guard, definitions-only tables of ancestors, the `uses` loop, target = file stem + selection range); only the typing of operands before a dot is left Outside; C10_ws_* / C11_ws_* tie these answers to the abstract model on map entity_of_tree ws"),
              dict(name="E-annot", path="harness/src/eng_annot.rs + coq/extract/eng_annot.ml",
                   kind_free_text="two-phase differential: real lexer+parser+AstAnnotator (full and definitions-only mode; root table and every method node's table: for_class_or_module, symbols in iter_symbols order with id / SymbolType / selection_range / range, uses) vs the extracted Coq model Annot.annotate on the dumped tree; C10_tables_from_tree* tie these tables to Scoping.root_table / method_table")],
 )
@@ -52,6 +54,7 @@ ASSUMPTIONS = [
     "no method name is declared twice in one entity (each procedure/function has one body scope)",
     "inside method m of class C a dotted chain that runs through a strict descendant D of C does not continue with a name that C declares as a method after m (what D's tables see of C at that moment depends on the history of requests: the tables of D are built on demand)",
     "the statement directly after an incomplete line `x.` starts with a keyword (the parser's empty operand extends to the next token, which swallows a cursor placed there)",
+    "workspace-level tree tie (C10_ws_*, C11_ws_*, engine wstree): one request session = a fresh ProjectManager asked about ONE file (that file annotated in the full mode, every other file definitions-only, on demand); on a parent cycle the chain of the REQUESTED file is modelled when the class header is the first child of the root of every file on the path (the order of annotation is then fixed), a USED entity on a parent cycle is left Outside; the refinement theorems assume no lineage walk comes back (ws_acyclic: with the cycle guard the code CUTS the chain, Scoping.lineage walks round until its fuel ends - C10_ws_cycle_guard), every file called like its header, pairwise distinct stems ignoring case",
     "tree-level tie (C10_tables_from_tree*, engine annot): the annotated tree is built from get_children_arc while the dump reports get_children_ref (treedump.rs flags a disagreement of the two views with attribute 99; none observed); non-Option struct fields (identifier tokens, name node of a method) are always present in a dumped tree - for other `node` values the model uses range 0; symbol payload other than id / sym_type / selection_range / range (eval_type, type_str, parent) and the parent link of the root table are not part of the tree-level model",
     "HashMap iteration order is not observed: completion labels are compared sorted; definition links are compared in the order returned",
 ]
